@@ -65,6 +65,10 @@ INT_POOL = ["s1", "s2", "s3", "s4", "s5", "s6", "s7", "s8", "s9", "s10", "s11",
 FLT_POOL = ["fs1", "fs2", "fs3", "fs4", "fs5", "fs6", "fs7", "fs8", "fs9", "fs10", "fs11",
             "ft0", "ft1", "ft2", "ft3", "ft4", "ft5", "fa0", "fa1", "fa2", "fa3"]
 INT_EXTRA, FLT_EXTRA = "t6", "ft11"
+# Two extensions of the move-graph domain, generated as separately labelled classes (their failures
+# have their own signatures: zero_chain / multi_zero_dst / split).  Set to False to drop them.
+GEN_ZERO_DST = True       # `zero` may also be a destination (the op verifier allows it, even repeated)
+GEN_SPLIT_VALUES = True   # fan-out through several SSA values allocated to the same register
 EMITTED = {"riscv.mv", "riscv.fmv.s", "riscv.fmv.d", "riscv.xor"}
 NANBOX = frozenset(["ones"])
 ZERO_LANES = (frozenset(), frozenset())
@@ -572,7 +576,7 @@ def enum_block(h, counter, label, icases, fcases, orders):
                 "perm": order_perm(len(moves), len(fmoves), order), "split": False,
                 "empty_attr": (k % 5 == 0)}
         run_one(h, base, label, distinct=True)
-        if has_fanout(moves) or has_fanout(fmoves):
+        if GEN_SPLIT_VALUES and (has_fanout(moves) or has_fanout(fmoves)):
             run_one(h, dict(base, split=True), label + "_split", distinct=True)
     counter[0] += total
 
@@ -584,12 +588,12 @@ def checks(h):
     both = ["if", "rev"]
     mixed = ["if", "fi", "alt"]
     for n in (1, 2, 3, 4):
-        enum_block(h, counter, f"enum_int{n}", int_cases(n, True), no_f, both)
+        enum_block(h, counter, f"enum_int{n}", int_cases(n, GEN_ZERO_DST), no_f, both)
     for m in (1, 2, 3, 4):
         enum_block(h, counter, f"enum_float{m}", no_i, float_cases(m), both)
     enum_block(h, counter, "enum_int3_float2", int_cases(3, False), float_cases(2), mixed)
     if not h.quick:
-        enum_block(h, counter, "enum_int5", int_cases(5, True), no_f, ["if"])
+        enum_block(h, counter, "enum_int5", int_cases(5, GEN_ZERO_DST), no_f, ["if"])
         enum_block(h, counter, "enum_int4_float2", int_cases(4, False), float_cases(2), mixed)
         enum_block(h, counter, "enum_int3_float3", int_cases(3, False), float_cases(3), mixed)
     h.exhaustive = True
@@ -620,7 +624,7 @@ def random_recipes(nmax):
                     lambda t: [t[1][1] if (t[1] is not None and t[1][0] == i) else w
                                for i, w in enumerate(t[0])]),                  # width per source
                 st.one_of(st.just([]), st.just([]), st.lists(
-                    st.integers(0, max(n - 1, 0)), max_size=2 if allow_zero else 0)))  # zero dsts
+                    st.integers(0, max(n - 1, 0)), max_size=2 if (allow_zero and GEN_ZERO_DST) else 0)))  # zero dsts
         return st.integers(0, nmax).flatmap(mk)
 
     def norm(t):
@@ -654,5 +658,6 @@ def random_recipes(nmax):
 
     return st.tuples(side(INT_POOL, INT_EXTRA, True), side(FLT_POOL, FLT_EXTRA, False),
                      st.lists(st.integers(0, 30), min_size=24, max_size=24),
-                     st.booleans(), st.booleans()).map(norm).filter(
+                     st.booleans() if GEN_SPLIT_VALUES else st.just(False),
+                     st.booleans()).map(norm).filter(
                          lambda r: r["moves"] or r["fmoves"])
